@@ -6,7 +6,7 @@ is havocked – the analysis never guesses what an unknown callee does.
 """
 import copy
 from .expr import *
-from .interp import (Adt, Arr, Tup, VecV, Ref, SliceRef, SymSlice, Opaque, IterV, FnVal, ClosureV, UNIT, UNINIT,
+from .interp import (Adt, Arr, Tup, VecV, Ref, SliceRef, SymSlice, RawSlice, Opaque, IterV, FnVal, ClosureV, UNIT, UNINIT,
                      Fork, DIVERGE, Enter, Unsupported, get_path, set_path, Cell, int_info)
 
 MODELS = {}
@@ -307,6 +307,21 @@ def m_slice_as_ptr(m, st, ctx, args, span):
 @model("core::slice::<impl [T]>::copy_from_slice")
 def m_copy_from_slice(m, st, ctx, args, span):
     d, s = args
+    if isinstance(d, RawSlice):
+        # from_raw_parts_mut(ptr, n).copy_from_slice(src): a raw copy of n bytes to ptr (it panics unless n == src.len())
+        slen = slice_len(m, s)
+        from . import guards as _g
+        if not _g.same(slen.e, d.len.e):
+            raise Unsupported("copy_from_slice into raw memory: lengths %s / %s are not the same expression" % (fmt(d.len.e), fmt(slen.e)))
+        p_ = m_slice_as_ptr(m, st, ctx, [s], span) if not isinstance(s, Ref) else s
+        sk, sp = describe_src(m, p_)
+        extra = {"dst": d.ptr, "count": d.len, "src_kind": sk, "src": sp, "src_len": slen}
+        if sk == "addr":
+            extra["src_ptr"] = p_
+        if isinstance(s, SymSlice):
+            extra["src_sym"] = s.content
+        m.event(st, "raw_write", ctx.name, [p_, d.ptr, d.len], None, span, extra=extra)
+        return UNIT
     el = slice_elems(m, s)
     if not isinstance(d, SliceRef) or el is None:
         raise Unsupported("copy_from_slice %r <- %r" % (d, s))
@@ -644,6 +659,18 @@ def m_wrapping_sub(m, st, ctx, args, span):
 def m_wrapping_add(m, st, ctx, args, span):
     a, b = args
     return Int(a.w, a.signed, binop("add", a.e, b.e, a.w))
+
+
+_INT_TYS = ("u8", "u16", "u32", "u64", "u128", "usize", "i8", "i16", "i32", "i64", "i128", "isize")
+
+
+@model(*["core::num::<impl %s>::wrapping_%s" % (t, d) for t in _INT_TYS for d in ("shr", "shl")])
+def m_wrapping_shift(m, st, ctx, args, span):
+    # the shift amount is taken modulo the width, which is what int_binop does for a constant amount
+    a, b = args
+    if not b.is_const():
+        b = int_binop("BitAnd", b, int_const(a.w - 1, b.w, False))
+    return int_binop("Shr" if ctx.name.endswith("shr") else "Shl", a, b)
 
 
 @model("core::num::<impl u64>::abs_diff", "core::num::<impl usize>::abs_diff", "core::num::<impl u32>::abs_diff",
@@ -1092,11 +1119,20 @@ def m_copy_nonoverlapping(m, st, ctx, args, span):
        "std::ptr::const_ptr::<impl *const T>::copy_to", "std::ptr::const_ptr::<impl *const T>::copy_to_nonoverlapping",
        "std::ptr::mut_ptr::<impl *mut T>::copy_to", "std::ptr::mut_ptr::<impl *mut T>::copy_to_nonoverlapping",
        "std::ptr::swap", "std::ptr::swap_nonoverlapping", "std::ptr::replace", "std::ptr::mut_ptr::<impl *mut T>::swap",
-       "std::ptr::mut_ptr::<impl *mut T>::replace", "std::slice::from_raw_parts_mut", "std::ptr::slice_from_raw_parts_mut")
+       "std::ptr::mut_ptr::<impl *mut T>::replace", "std::ptr::slice_from_raw_parts_mut")
 def m_other_raw_write(m, st, ctx, args, span):
     ret = m.fresh(st, ctx.name, ctx.dest_ty)
     m.event(st, "raw_write_other", ctx.name, args, ret, span)
     return ret
+
+
+@model("std::slice::from_raw_parts_mut")
+def m_from_raw_parts_mut(m, st, ctx, args, span):
+    ptr, ln = args
+    if isinstance(ptr, Int) and isinstance(ln, Int) and elem_size_of(m, ctx) == 1:
+        m.event(st, "raw_slice", ctx.name, args, None, span, extra={"ptr": ptr, "len": ln})
+        return RawSlice(ptr, ln)
+    return m_other_raw_write(m, st, ctx, args, span)
 
 
 # ------------------------------------------------------------------------------------------------ strings / fmt
